@@ -94,9 +94,10 @@ CLAIMED = {
         text="PlansMC.tla takes targets from an ordinary LinearRE simulation, endogenizes the same shocks (anticipated or unanticipated, prior "
              "input 0 or 1/2), solves for the instruments through the exact impact matrix and TLC checks that they are the original shocks and that "
              "the planned path satisfies the structural equations; every non-singular scenario is run through SimulationPlan + simulate(plan=...) "
-             "and compared (targets hit, shocks recovered, whole path, other shocks unchanged).",
-        note="Trusted: TLC, numpy primitives. Bounds: library models L1, L2, L3, L9; <= 2 (target, instrument) pairs; first-order method. Anticipated plans "
-             "are combined with anticipated base shocks only (mixing them with later surprises is not specified).",
+             "under method first_order and, in level mode, stacked_time, and compared (targets hit, shocks recovered, whole path, other shocks unchanged).",
+        note="Trusted: TLC, numpy primitives, the neqs solver for stacked_time. Bounds: library models L1, L2, L3, L9; <= 2 (target, instrument) pairs. Anticipated plans "
+             "are combined with anticipated base shocks only (mixing them with later surprises is not specified). One known finding (stacked_time ignores "
+             "unanticipated targets dated differently from their instrument).",
         design="5/C07", technique="TLA+ spec (PlansMC over LinearRE) model-checked by TLC; every TLC-computed scenario replayed into irispie"),
     "C18": dict(
         text="Ols.tla lays out the VAR regressors, selects exactly the complete periods and solves the normal equations exactly (LinSolve); TLC "
